@@ -712,7 +712,7 @@ def valuations(item, tier):
 # plans
 # ------------------------------------------------------------------------------------------------
 
-def enumerate_plan(tier, stats):
+def enumerate_plan(tier, stats, with_rename=False):
     """-> list of items (deduplicated by program text), dict of per-family counts."""
     import json
     fams = []
@@ -744,6 +744,16 @@ def enumerate_plan(tier, stats):
         fams.append(("df-reduced-s5-nestedloops", df_driver(DFConfig(size=5, depth=2, alphabet="reduced", kinds=["for", "while"],
                                                                         returns=["u", "v", "u,v"], nested_ranges=True,
                                                                         ranges_all=True, ivar_after=False)), 1))
+    if with_rename:
+        # C01 executes the renaming family that C02 only decorates: a local named like a name the translator
+        # generates (u_0, x_0, tmp ...) that is read inside a body in which the colliding variable is carried
+        # gives a well-typed model computing something else when the generated name shadows it (seeded C01e)
+        quick = tier == "quick"
+        fams.append(("df-rename", df_driver(DFConfig(
+            size=3 if quick else 4, depth=1, alphabet="alias" if quick else "reduced", kinds=["if", "for"],
+            ivar_after=False, renames=[r for r in RENAMES if not quick or r[0] in RENAMES_QUICK],
+            prologues=["vc", "none"] if quick else ["uc,vc", "vc", "none"],
+            returns=["u,v", "v"] if quick else ["u,v", "v", "x,u"])), 0))
     import os
     only = os.environ.get("VERIF_C01_FAMS")
     if only:
